@@ -40,7 +40,7 @@ func die(f string, a ...any) {
 func main() {
 	repo := flag.String("repo", "/repo", "serf checkout")
 	out := flag.String("out", "", "output directory")
-	mode := flag.String("mode", "snapshot", "snapshot|lamport|locks|clientlocks")
+	mode := flag.String("mode", "snapshot", "snapshot|lamport|locks|clientlocks|agentlocks")
 	mutant := flag.String("mutant", "", "optional overlay.json whose replacements are read instead of the repo files (sensitivity trials)")
 	flag.Parse()
 	if *mutant != "" {
@@ -84,10 +84,14 @@ func main() {
 		}
 		replace[filepath.Join(*repo, "serf", "verif_shim_lamport.go")] = shim
 		fmt.Printf("lamport.go: %d uses of sync/atomic redirected to yielding wrappers\n", n)
-	case "locks", "clientlocks":
+	case "locks", "clientlocks", "agentlocks":
 		dir, pkgName, files := "serf", "serf", []string{"serf.go", "query.go", "event.go"}
-		if *mode == "clientlocks" {
+		switch *mode {
+		case "clientlocks":
 			dir, pkgName, files = "client", "client", []string{"rpc_client.go"}
+		case "agentlocks":
+			dir, pkgName = filepath.Join("cmd", "serf", "command", "agent"), "agent"
+			files = []string{"agent.go", "event_handler.go", "gated_writer.go", "ipc.go", "ipc_event_stream.go", "log_writer.go"}
 		}
 		total := 0
 		for _, name := range files {
